@@ -17,7 +17,9 @@ from vf.spec import Sem
 
 NAMES = ["start", "a", "b", "c", "d", "e"]
 
-TEXT_RX = ["[ab]", "[ab]+", "a+", "b?a", "(ab|b)", "[a-c]{1,2}", "[0-9]+", "[01]{2}", "a[ab]?"]
+TEXT_RX = ["[ab]", "[ab]+", "a+", "b?a", "(ab|b)", "[a-c]{1,2}", "[0-9]+", "[01]{2}", "a[ab]?",
+           # an optional / repeated tail behind a separator: a complete match can still be extended
+           "a+(ba+)?", "[01]+(a[01]+)?", "b(ab)*"]
 TEXT_RX_EMPTY = ["a*", "[ab]*", "b?", "(ab)?"]
 TEXT_RX_NON_ASCII = ["[aé]+", "é+", "é?a", "[é€]{1,2}", "(é|ab)+", "aé?"]
 BIN_RX = ["[ab]", "[ab]+", "a+", "[0-9]{1,2}"]
@@ -45,7 +47,7 @@ def _literal(s: dict[str, Any], alphabet: str) -> Any:
     if s["mode"] == "bin":
         return st.one_of(
             st.binary(min_size=1, max_size=2).map(lambda b: ["blit", b.hex()]),
-            st.sampled_from(["a", "b", "ab", "0", "7", "a", "b", "é", "ü", "€b"] if s["non_ascii"] else ["a", "b", "ab", "0", "7"]).map(lambda t: ["lit", t]),
+            st.sampled_from(["a", "b", "ab", "0", "7", "é", "ü", "€b", "€", "¥¥"] if s["non_ascii"] else ["a", "b", "ab", "0", "7"]).map(lambda t: ["lit", t]),
             st.sampled_from([b"a", b"\x00", b"\xff\x01", b"b"]).map(lambda b: ["blit", b.hex()]),
         )
     alpha = alphabet + ("é€" if s["non_ascii"] else "")
